@@ -992,4 +992,207 @@ theorem sources_run (ops : List (Op Mod Content)) (s : State Mod Content Sig Err
 
 end Ops
 
+/-! ## `checked_modules` bookkeeping -/
+
+section Checked
+variable {Mod Content Sig Err : Type} [DecidableEq Mod]
+variable (ck : Checker Mod Content Sig Err)
+
+/-- keys(`checked_modules`) = keys(`parsed_modules`) = keys(`string_sources`). -/
+def CheckedOk (s : State Mod Content Sig Err) : Prop :=
+  ∀ m, m ∈ s.checked ↔ (lookup s.sources m).isSome = true
+
+theorem recheck_checked (s s1 : State Mod Content Sig Err) (pending : List (Mod × Err))
+    (D R : List Mod) (h : CheckedOk s)
+    (hsub : ∀ m, m ∈ s1.checked → (lookup s1.sources m).isSome = true)
+    (hout : ∀ m, m ∉ D → (m ∈ s1.checked ↔ m ∈ s.checked) ∧
+      lookup s1.sources m = lookup s.sources m)
+    (hDR : ∀ x ∈ D, x ∈ R) : CheckedOk (recheck ck s1 pending R) := by
+  intro m
+  show m ∈ R.filter (fun m => (lookup s1.sources m).isSome) ++ s1.checked ↔
+    (lookup s1.sources m).isSome = true
+  simp only [List.mem_append, List.mem_filter]
+  constructor
+  · rintro (⟨_, h1⟩ | h1)
+    · exact h1
+    · exact hsub m h1
+  · intro hs
+    by_cases hm : m ∈ R
+    · exact .inl ⟨hm, hs⟩
+    · have hmD : m ∉ D := fun hd => hm (hDR m hd)
+      obtain ⟨h1, h2⟩ := hout m hmD
+      exact .inr (h1.mpr ((h m).mpr (by rw [← h2]; exact hs)))
+
+theorem update_checked (s : State Mod Content Sig Err) (ups : List (Mod × Content))
+    (h : CheckedOk s) : CheckedOk (update ck s ups) := by
+  unfold update
+  generalize writeBatch ck.root ups = U
+  simp only
+  have hf := foldl_inv
+    (fun s' : State Mod Content Sig Err =>
+      (∀ m, m ∈ s'.checked → (lookup s'.sources m).isSome = true) ∧
+      ∀ m, m ∉ keys U → (m ∈ s'.checked ↔ m ∈ s.checked) ∧
+        lookup s'.sources m = lookup s.sources m)
+    (updateOne ck) U
+    (by
+      rintro s' p hp ⟨h1, h2⟩
+      have hpk : p.1 ∈ keys U := List.mem_map.mpr ⟨p, hp, rfl⟩
+      refine ⟨fun m hm => ?_, fun m hm => ?_⟩
+      · have := h1 m hm
+        simp only [updateOne, lookup_insert]
+        split <;> simp_all
+      · have hne : p.1 ≠ m := fun e => hm (e ▸ hpk)
+        simp only [updateOne, lookup_insert, hne, ↓reduceIte]
+        exact h2 m hm)
+    s ⟨fun m hm => (h m).mp hm, fun _ _ => ⟨Iff.rfl, rfl⟩⟩
+  exact recheck_checked ck s _ _ (keys U) _ h hf.1 hf.2
+    (fun x hx => self_mem_affectedSet ck _ _ x hx)
+
+theorem remove_checked (s : State Mod Content Sig Err) (ms : List Mod)
+    (h : CheckedOk s) : CheckedOk (remove ck s ms) := by
+  unfold remove
+  generalize ms.filter (fun m => m ≠ ck.root) = ms'
+  simp only
+  have hf := foldl_inv
+    (fun s' : State Mod Content Sig Err =>
+      (∀ m, m ∈ s'.checked → (lookup s'.sources m).isSome = true) ∧
+      ∀ m, m ∉ ms' → (m ∈ s'.checked ↔ m ∈ s.checked) ∧
+        lookup s'.sources m = lookup s.sources m)
+    removeOne ms'
+    (by
+      rintro s' k hk ⟨h1, h2⟩
+      refine ⟨fun m hm => ?_, fun m hm => ?_⟩
+      · simp only [removeOne, List.mem_filter, decide_eq_true_eq] at hm
+        have hne : k ≠ m := fun e => hm.2 e.symm
+        simp only [removeOne, lookup_erase, hne, ↓reduceIte]
+        exact h1 m hm.1
+      · have hne : k ≠ m := fun e => hm (e ▸ hk)
+        have hne' : m ≠ k := fun e => hne e.symm
+        simp only [removeOne, lookup_erase, hne, ↓reduceIte, List.mem_filter, decide_eq_true_eq,
+          hne', ne_eq, not_false_eq_true, and_true]
+        exact h2 m hm)
+    s ⟨fun m hm => (h m).mp hm, fun _ _ => ⟨Iff.rfl, rfl⟩⟩
+  exact recheck_checked ck s _ _ ms' _ h hf.1 hf.2
+    (fun x hx => self_mem_affectedSet ck _ _ x hx)
+
+theorem rename_checked (s : State Mod Content Sig Err) (rens : List (Mod × Mod))
+    (h : CheckedOk s) : CheckedOk (rename ck s rens) := by
+  unfold rename
+  generalize renamePairs ck.root rens = rs
+  simp only
+  generalize hDdef : rs.flatMap (fun p => [p.1, p.2]) = D
+  have hf := foldl_inv
+    (fun acc : State Mod Content Sig Err × List (Mod × List Err) =>
+      (∀ m, m ∈ acc.1.checked → (lookup acc.1.sources m).isSome = true) ∧
+      ∀ m, m ∉ D → (m ∈ acc.1.checked ↔ m ∈ s.checked) ∧
+        lookup acc.1.sources m = lookup s.sources m)
+    (renameOne ck) rs
+    (by
+      rintro ⟨s', syn⟩ p hp ⟨h1, h2⟩
+      simp only at h1 h2
+      have hpD1 : p.1 ∈ D := hDdef ▸ List.mem_flatMap.mpr ⟨p, hp, by simp⟩
+      have hpD2 : p.2 ∈ D := hDdef ▸ List.mem_flatMap.mpr ⟨p, hp, by simp⟩
+      unfold renameOne
+      simp only
+      cases hl : lookup s'.sources p.1 with
+      | none =>
+        refine ⟨fun m hm => ?_, fun m hm => ?_⟩
+        · simp only [List.mem_filter] at hm
+          exact h1 m hm.1
+        · have hne : m ≠ p.1 := fun e => hm (e ▸ hpD1)
+          simp only [List.mem_filter, decide_eq_true_eq, hne, ne_eq, not_false_eq_true, and_true]
+          exact h2 m hm
+      | some c =>
+        refine ⟨fun m hm => ?_, fun m hm => ?_⟩
+        · simp only [List.mem_filter, decide_eq_true_eq] at hm
+          have hne : p.1 ≠ m := fun e => hm.2 e.symm
+          have := h1 m hm.1
+          simp only [lookup_insert, lookup_erase, hne, ↓reduceIte]
+          split <;> simp_all
+        · have e1 : p.1 ≠ m := fun e => hm (e ▸ hpD1)
+          have e2 : p.2 ≠ m := fun e => hm (e ▸ hpD2)
+          have e1' : m ≠ p.1 := fun e => e1 e.symm
+          simp only [lookup_insert, lookup_erase, e1, e2, ↓reduceIte, List.mem_filter,
+            decide_eq_true_eq, e1', ne_eq, not_false_eq_true, and_true]
+          exact h2 m hm)
+    (s, []) ⟨fun m hm => (h m).mp hm, fun _ _ => ⟨Iff.rfl, rfl⟩⟩
+  exact recheck_checked ck s _ _ D _ h hf.1 hf.2
+    (fun x hx => self_mem_affectedSet ck _ _ x hx)
+
+theorem fresh_checked (S : Sources Mod Content) : CheckedOk (fresh ck S) := by
+  intro m
+  show m ∈ keys S ↔ (lookup S m).isSome = true
+  constructor
+  · intro hm
+    obtain ⟨v, hv⟩ := lookup_some_of_mem_keys hm
+    rw [hv]; rfl
+  · intro hs
+    cases hl : lookup S m with
+    | none => rw [hl] at hs; cases hs
+    | some v => exact mem_keys_of_lookup hl
+
+theorem step_checked (s : State Mod Content Sig Err) (op : Op Mod Content)
+    (h : CheckedOk s) : CheckedOk (step ck s op) := by
+  cases op with
+  | update ups => exact update_checked ck s ups h
+  | rename rens => exact rename_checked ck s rens h
+  | remove ms => exact remove_checked ck s ms h
+
+end Checked
+
+/-! ## LSP glue -/
+
+section Glue
+variable {Mod Content Sig Err : Type} [DecidableEq Mod]
+
+theorem delete_glue (root : Mod) (files : List (Option Mod))
+    (h : ∀ m, some m ∈ files → m ≠ root) :
+    (files.map (fun o => o.getD root)).filter (fun m => m ≠ root) = files.filterMap id := by
+  induction files with
+  | nil => rfl
+  | cons o t ih =>
+    have ih' := ih (fun m hm => h m (List.mem_cons_of_mem _ hm))
+    cases o with
+    | none =>
+      simp only [List.map_cons, Option.getD_none, List.filter_cons, ne_eq, not_true_eq_false,
+        decide_false, Bool.false_eq_true, ↓reduceIte, List.filterMap_cons, id_eq]
+      exact ih'
+    | some m =>
+      have hm : m ≠ root := h m List.mem_cons_self
+      simp only [List.map_cons, Option.getD_some, List.filter_cons, ne_eq, hm, not_false_eq_true,
+        decide_true, ↓reduceIte, List.filterMap_cons, id_eq]
+      rw [← ih']
+
+/-- The handlers' calls have the file-system effect of the notification. -/
+theorem glue_file_view (root : Mod) (S : Sources Mod Content) (ev : Event Mod Content)
+    (h : EventNoRoot root ev) : applyOp root S (glue root ev) = applyEvent root S ev := by
+  cases ev with
+  | didChange m t =>
+    have hm : m ≠ root := h
+    simp [applyOp, glue, applyEvent, writeBatch, hm, insert, erase]
+  | didCreate files => rfl
+  | didRename pairs =>
+    have : renamePairs root pairs = pairs := by
+      unfold renamePairs
+      rw [List.filter_eq_self]
+      intro p hp
+      have := h p hp
+      simp [this.1, this.2]
+    simp only [applyOp, glue, applyEvent, this]
+  | didDelete files =>
+    simp only [applyOp, glue, applyEvent]
+    rw [delete_glue root files h]
+
+theorem glue_file_view_run (root : Mod) (evs : List (Event Mod Content))
+    (h : ∀ ev ∈ evs, EventNoRoot root ev) (S : Sources Mod Content) :
+    applyOps root (evs.map (glue root)) S = applyEvents root evs S := by
+  induction evs generalizing S with
+  | nil => rfl
+  | cons ev evs ih =>
+    simp only [applyOps, applyEvents, List.map_cons, List.foldl_cons] at ih ⊢
+    rw [glue_file_view root S ev (h ev List.mem_cons_self)]
+    exact ih (fun e he => h e (List.mem_cons_of_mem _ he)) _
+
+end Glue
+
 end SamVerif.Incremental
